@@ -6,6 +6,8 @@ namespace CogentModel.Splitlines
 universal newlines that has no VT/FF/FS/GS/RS/NEL/LS/PS control characters) -/
 def NlOnly (s : List Char) : Prop := ∀ c ∈ s, isBreak c = true → c = '\n'
 
+instance (s : List Char) : Decidable (NlOnly s) := by unfold NlOnly; infer_instance
+
 theorem isBreak_nl : isBreak '\n' = true := by decide
 
 theorem nlOnly_append {a b : List Char} : NlOnly (a ++ b) ↔ NlOnly a ∧ NlOnly b := by
